@@ -15,7 +15,8 @@ RULE = (
     "real pytest sessions over generated files with 1-4 test functions, each with 1-4 sites whose status is "
     "chosen by the generator: ok (the comparison holds), wrong (some comparison fails against the value in the "
     "source) or missing (empty call / missing sub-snapshot key); all five operations, loops where only a later "
-    "iteration is wrong, an outer snapshot evaluated twice that selects a second (wrong or empty) conditional inner snapshot the second time (also for ==, where the value in the source matches the first evaluations), module-level sites shared by several tests, asserting bodies; flags: every subset of "
+    "iteration is wrong, outsourced data against persisted externals (a wrong one shares a 3-digit hash prefix; hash-length "
+    "1 / 2 / 3 / 12 / 15 configured while the source holds 12 digits), an outer snapshot evaluated twice that selects a second (wrong or empty) conditional inner snapshot the second time (also for ==, where the value in the source matches the first evaluations), module-level sites shared by several tests, asserting bodies; flags: every subset of "
     "the categories alone or with report / review (random y/n answers) / short-report, no flags at all, and "
     "disable. Which sites a test *executed* is observed, not modelled: the body appends a marker to a side "
     "file immediately before each comparison. Oracle (junit + exit status): a test that executed a wrong or "
@@ -30,7 +31,7 @@ CATS = ["create", "fix", "trim", "update"]
 
 @st.composite
 def _site(draw, idx):
-    op = draw(st.sampled_from(["eq", "le", "ge", "in", "getitem", "eq", "le", "in", "cond"]))
+    op = draw(st.sampled_from(["eq", "le", "ge", "in", "getitem", "eq", "le", "in", "cond", "ext"]))
     status = draw(st.sampled_from(["ok", "ok", "wrong", "missing", "wrongtype"]))
     if status == "wrongtype" and op not in ("le", "ge"):
         status = "wrong"
@@ -65,7 +66,32 @@ def _case(draw, tier):
     share = draw(st.sampled_from([True, True, False]))
     # parametrised tests: the same call sites are evaluated again by a second test item
     param = [draw(st.sampled_from([1, 1, 2])) for _ in tests]
-    return {"tests": tests, "share": share, "param": param, "flags": draw(_flags())}
+    return {"tests": tests, "share": share, "param": param, "flags": draw(_flags()),
+            # [tool.inline-snapshot] hash-length (the references in the source were written with 12 characters)
+            "hash_length": draw(st.sampled_from([None, None, 1, 2, 3, 15]))}
+
+
+def _sha(text):
+    import hashlib
+
+    return hashlib.sha256(text.encode()).hexdigest()
+
+
+def _ext_pairs():
+    """pairs of strings whose sha256 share their first three hex digits (searched, deterministic)"""
+    seen, pairs, i = {}, [], 0
+    while len(pairs) < 3:
+        d = f"report {i}"
+        h = _sha(d)[:3]
+        if h in seen:
+            pairs.append((seen.pop(h), d))
+        else:
+            seen[h] = d
+        i += 1
+    return pairs
+
+
+EXT_PAIRS = _ext_pairs()
 
 
 def site_code(s):
@@ -124,12 +150,12 @@ def cmp_line(s, S, x):
 
 
 def render(case):
-    lines = ["import pytest", "from inline_snapshot import snapshot", "", "",
+    lines = ["import pytest", "from inline_snapshot import snapshot, outsource, external", "", "",
              "def mark(tag):", "    with open('executed.log', 'a') as f:", "        f.write(tag + '\\n')", ""]
     module_sites = []
     for ti, sites in enumerate(case["tests"]):
         for s in sites:
-            if s["place"] == "module" and s["op"] != "cond":
+            if s["place"] == "module" and s["op"] not in ("cond", "ext"):
                 arg, _ = site_code(s)
                 lines.append(f"S{s['id']} = snapshot({arg})")
                 module_sites.append((ti, s))
@@ -146,6 +172,13 @@ def render(case):
             use += [s for t, s in module_sites if t == ti - 1]
         for s in use:
             tag = f"t{ti}r%d.s{s['id']}"
+            if s["op"] == "ext":
+                # outsourced data against a persisted external; a wrong one shares a short hash prefix with it
+                a, b = EXT_PAIRS[s["xs"][0] % len(EXT_PAIRS)]
+                observed = a if s["status"] == "ok" else b
+                arg = "" if s["status"] == "missing" else f'external("{_sha(a)[:12]}*.txt")'
+                lines += [f"    mark({tag!r} % r)", f"    assert outsource({observed!r}) == snapshot({arg})"]
+                continue
             if s["op"] == "cond":
                 # an outer snapshot that is evaluated twice and selects another inner snapshot the second time
                 # (docs/eq_snapshot.md, conditional snapshots); the bad one is the second
@@ -201,7 +234,13 @@ def cli(flags):
 def check(case):
     src = render(case)
     args, stdin = cli(case["flags"])
-    d = drivers.make_project({"test_a.py": src})
+    files = {"test_a.py": src}
+    for a, _b in EXT_PAIRS:
+        files[f".inline-snapshot/external/{_sha(a)}.txt"] = a
+    pyproject = drivers.DEFAULT_PYPROJECT
+    if case.get("hash_length"):
+        pyproject += f"\n[tool.inline-snapshot]\nhash-length = {case['hash_length']}\n"
+    d = drivers.make_project(files, pyproject=pyproject)
     try:
         env = {"FORCE_COLOR": "true"} if stdin else None
         r = drivers.run_pytest(d, args, stdin=stdin, env=env)
